@@ -119,6 +119,24 @@ func relCoq(cl resolve.Client, pkg, reqStr string, level upgrade.Level, obs relO
 			dl = append(dl, fmt.Sprintf("(%s, %s, %s)", vers.n(v), vers.n(w), optDiff(d, derr)))
 		}
 	}
+	// what the requirement resolves to: the last of cl.MatchingVersions (npm prefers the version tagged
+	// "latest"); the code takes it as the base when it sits below the highest match
+	baseCoq, resolvedCoq := "None", "None"
+	if cok && verr == nil {
+		lastIdx := -1
+		for i, v := range vs {
+			if pv, perr := sys.Parse(v); perr == nil && c.MatchVersion(pv) {
+				lastIdx = i
+			}
+		}
+		if ms, merr := cl.MatchingVersions(ctx, reqVK); merr == nil && len(ms) > 0 {
+			rv := ms[len(ms)-1].Version
+			resolvedCoq = "(Some " + vers.n(rv) + ")"
+			if i := slices.Index(vs, rv); i >= 0 && i < lastIdx {
+				baseCoq = "(Some " + vers.n(rv) + ")"
+			}
+		}
+	}
 	ob := "None"
 	if obs.OK {
 		switch {
@@ -130,8 +148,8 @@ func relCoq(cl resolve.Client, pkg, reqStr string, level upgrade.Level, obs relO
 			ob = fmt.Sprintf("(Some (Caret, %s))", vers.n("\x00unexpected:"+obs.Version))
 		}
 	}
-	s := fmt.Sprintf("{| r_level := %s; r_cok := %v; r_verr := %v; r_vers := %s; r_parses := %s; r_matches := %s; r_pre := %s; r_dif := %s; r_rank := %s; r_consistent := %v; r_observed := %s |}",
-		levelCoq(level), cok, verr != nil, cf.List(vl), cf.List(pl), cf.List(ml), cf.List(prl), cf.List(dl), cf.List(rl), ri.consistent, ob)
+	s := fmt.Sprintf("{| r_level := %s; r_cok := %v; r_verr := %v; r_vers := %s; r_parses := %s; r_matches := %s; r_pre := %s; r_dif := %s; r_rank := %s; r_consistent := %v; r_base := %s; r_resolved := %s; r_observed := %s |}",
+		levelCoq(level), cok, verr != nil, cf.List(vl), cf.List(pl), cf.List(ml), cf.List(prl), cf.List(dl), cf.List(rl), ri.consistent, baseCoq, resolvedCoq, ob)
 	return s, len(vs) >= 2 && cok
 }
 
